@@ -3,9 +3,91 @@ package flow
 import (
 	"fmt"
 	"go/ast"
+	"go/types"
 
 	"golang.org/x/tools/go/cfg"
+	"golang.org/x/tools/go/types/typeutil"
+
+	"verifcheck/internal/core"
 )
+
+// New helper functions (functions that did not exist on the reference tree, see
+// core/refnames.go) are looked through by the path queries: a call of a new
+// helper counts as a node that satisfies pred when every path through the
+// helper passes such a node (must) or when some node of the helper does (may).
+// Extracting statements into a helper therefore does not hide them.
+func (e *Engine) newHelpers(u *Unit, n ast.Node) []*Unit {
+	var out []*Unit
+	ast.Inspect(n, func(m ast.Node) bool {
+		if _, ok := m.(*ast.FuncLit); ok {
+			return false
+		}
+		if call, ok := m.(*ast.CallExpr); ok {
+			if fn, ok := typeutil.Callee(u.Pkg.TypesInfo, call).(*types.Func); ok && core.IsNewFunc(fn) {
+				if hu := e.ByObj[fn]; hu != nil && hu.cfg != nil {
+					out = append(out, hu)
+				}
+			}
+		}
+		return true
+	})
+	return out
+}
+
+// mustContain: n satisfies pred itself, or calls a new helper all of whose paths pass pred.
+func (e *Engine) mustContain(u *Unit, n ast.Node, pred func(ast.Node) bool, depth int) bool {
+	if Contains(n, pred) {
+		return true
+	}
+	if depth >= 3 {
+		return false
+	}
+	for _, hu := range e.newHelpers(u, n) {
+		if !e.exitWithout(hu, hu.Entry(), pred, nil, depth+1).Found {
+			return true
+		}
+	}
+	return false
+}
+
+// mayContain: n satisfies pred itself, or calls a new helper some node of which does.
+func (e *Engine) mayContain(u *Unit, n ast.Node, pred func(ast.Node) bool, depth int) bool {
+	if Contains(n, pred) {
+		return true
+	}
+	if depth >= 3 {
+		return false
+	}
+	for _, hu := range e.newHelpers(u, n) {
+		for _, b := range hu.cfg.Blocks {
+			if !b.Live {
+				continue
+			}
+			for _, m := range b.Nodes {
+				if e.mayContain(hu, m, pred, depth+1) {
+					return true
+				}
+			}
+		}
+	}
+	return false
+}
+
+// FindThrough is Find extended by calls of new helpers that may contain a match.
+func (e *Engine) FindThrough(u *Unit, pred func(ast.Node) bool) []Point {
+	var out []Point
+	for _, b := range u.cfg.Blocks {
+		if !b.Live {
+			continue
+		}
+		for i, n := range b.Nodes {
+			if e.mayContain(u, n, pred, 0) {
+				out = append(out, Point{b, i})
+			}
+		}
+	}
+	return out
+}
 
 // Point is a position in a unit's CFG: before node I of block B
 // (I == len(B.Nodes) is the end of the block).
@@ -86,6 +168,10 @@ type PathResult struct {
 // not pass a CFG node containing a target sub-node. stop, if non-nil, ends a
 // path without failing it (e.g. an alternative discharge).
 func (e *Engine) ExitWithout(u *Unit, start Point, target func(ast.Node) bool, stop func(ast.Node) bool) PathResult {
+	return e.exitWithout(u, start, target, stop, 0)
+}
+
+func (e *Engine) exitWithout(u *Unit, start Point, target func(ast.Node) bool, stop func(ast.Node) bool, depth int) PathResult {
 	type item struct {
 		p     Point
 		trace *traceNode
@@ -99,7 +185,7 @@ func (e *Engine) ExitWithout(u *Unit, start Point, target func(ast.Node) bool, s
 		hit := false
 		for i := it.p.I; i < len(b.Nodes); i++ {
 			n := b.Nodes[i]
-			if Contains(n, target) || (stop != nil && Contains(n, stop)) {
+			if e.mustContain(u, n, target, depth) || (stop != nil && e.mustContain(u, n, stop, depth)) {
 				hit = true
 				break
 			}
@@ -137,11 +223,11 @@ func (e *Engine) Reaches(u *Unit, start Point, target func(ast.Node) bool, block
 		blocked := false
 		for i := it.p.I; i < len(b.Nodes); i++ {
 			n := b.Nodes[i]
-			if Contains(n, target) {
+			if e.mayContain(u, n, target, 0) {
 				tr := &traceNode{prev: it.trace, msg: fmt.Sprintf("reaches %s", e.pos(n.Pos()))}
 				return PathResult{Found: true, Trace: tr.list()}
 			}
-			if blocker != nil && Contains(n, blocker) {
+			if blocker != nil && e.mustContain(u, n, blocker, 0) {
 				blocked = true
 				break
 			}
